@@ -57,7 +57,7 @@ def pg_reference(meshes, sym, flow, rotational):
 
 def rand_case(rng, kind):
     sym_case = bool(rng.random() < 0.35)
-    nsurf = int(rng.choice([1, 2]))
+    nsurf = int(rng.choice([1, 2, 3]))
     surfs = []
     for s in range(nsurf):
         sym = sym_case
